@@ -25,7 +25,7 @@ def plan(tier):
                 'sendall (successes, each error class, parse failures, authentication failures, unsupported '
                 'versions, stale/future time stamps, asynchronous/UNDO requests, oversize replacement) is '
                 'checked against the envelope rules; a cell is (source, class or operation, version, outcome)',
-        'min_monitor': {'encodings_validated': 5000, 'primitives_compared_with_reference': 150, 'primitive_writes_observed': 50000, 'built_responses_validated': 200,
+        'min_monitor': {'responses_validated_beside_other_sessions': 150, 'encodings_compared_with_the_encoding_alone': 500, 'encodings_validated': 5000, 'primitives_compared_with_reference': 150, 'primitive_writes_observed': 50000, 'built_responses_validated': 200,
                         'responses_validated': 400, 'error_responses_validated': 100},
         'assumptions': ['kv/ttlv_ref.py transcribes KMIP 1.x section 9.1',
                         'a reply to a request the session did not decode may carry version 1.0',
@@ -42,6 +42,8 @@ def cases(tier, seed):
     n = 96 if tier == 'quick' else 480
     cs += [{'session': i} for i in range(n)]
     cs += [{'built': i} for i in range(4 if tier == 'quick' else 32)]
+    cs += [{'beside': i} for i in range(12 if tier == 'quick' else 120)]
+    cs += [{'encoders': i} for i in range(8 if tier == 'quick' else 80)]
     return cs
 
 
@@ -233,9 +235,80 @@ def run_built(ctx, case):
                           {'hex': data.hex()[:800], 'version': version})
 
 
+def run_encoders_beside(ctx, case):
+    """The encoder itself under several threads: each thread composes response messages of its own (as run_built does) and
+    encodes them while the others do the same, yields injected at executed lines of the package.  The bytes a thread gets
+    must be the bytes the same message object encodes to afterwards, alone - an encoding is a function of the message."""
+    import random
+    import threading
+    from kmip.core.messages import contents, messages, payloads
+    from kv.monitors.yields import YieldInjector
+    rng = ctx.rng()
+
+    def build(r):
+        version = r.choice(rig.VERSIONS)
+        items = []
+        for j in range(r.randrange(1, 5)):
+            st = r.choice(list(E.ResultStatus))
+            failed = st != E.ResultStatus.SUCCESS
+            payload = None if failed else r.choice((None, payloads.DestroyResponsePayload(unique_identifier=rig.attrs.UniqueIdentifier('u-%d' % r.randrange(99))),
+                                                    payloads.LocateResponsePayload(unique_identifiers=['%d' % r.randrange(99) for _ in range(r.randrange(0, 4))])))
+            op = None if payload is None else (E.Operation.DESTROY if isinstance(payload, payloads.DestroyResponsePayload) else E.Operation.LOCATE)
+            items.append(messages.ResponseBatchItem(
+                operation=contents.Operation(op) if op is not None else None,
+                unique_batch_item_id=contents.UniqueBatchItemID(bytes(r.getrandbits(8) for _ in range(r.choice((1, 4, 8, 9))))) if r.random() < 0.6 else None,
+                result_status=contents.ResultStatus(st),
+                result_reason=contents.ResultReason(r.choice(list(E.ResultReason))) if failed else None,
+                result_message=contents.ResultMessage(r.choice(('', 'x', 'message text', 'm' * 8, 'm' * 31, 'n' * 200))) if failed else None,
+                response_payload=payload))
+        header = messages.ResponseHeader(protocol_version=rig.pv(version), time_stamp=contents.TimeStamp(1600000000),
+                                         batch_count=contents.BatchCount(len(items)))
+        return messages.ResponseMessage(response_header=header, batch_items=items), version
+    out = {}
+
+    def work(ti, seed_):
+        r = random.Random(seed_)
+        res = []
+        for _ in range(40):
+            try:
+                msg, version = build(r)
+                res.append((msg, version, rig.encode_response(msg, version)))
+            except Exception as e:      # noqa
+                res.append((None, None, e))
+        out[ti] = res
+    threads = [threading.Thread(target=work, args=(ti, rng.getrandbits(32)), daemon=True) for ti in range(3)]
+    with YieldInjector(random.Random(rng.getrandbits(32)), rng.choice((0.05, 0.15, 0.3)), where='/kmip/', tool=5, name='kv-c02e'):
+        for t in threads:
+            t.start()
+        for t in threads:
+            t.join(90)
+    if any(t.is_alive() for t in threads):
+        ctx.unsure('an encoder thread of a C02 history did not finish within 90 s')
+        return
+    ctx.ev()
+    for ti, res in out.items():
+        for msg, version, data in res:
+            if msg is None:
+                ctx.count('built_response_not_encodable')
+                continue
+            ctx.count('encodings_compared_with_the_encoding_alone')
+            ctx.count('encodings_validated')
+            alone = rig.encode_response(msg, version)
+            err = T.validate(data)
+            if data != alone or err is not None:
+                ctx.violation('encoder|beside', 'a response message encoded while other threads were encoding theirs is %s'
+                              % ('not well-formed TTLV: %s' % err if err is not None else 'not what the same message encodes to alone'),
+                              {'beside': data.hex()[:600], 'alone': alone.hex()[:600]})
+                return
+
+
 def _run_case(ctx, case):
     if 'built' in case:
         return run_built(ctx, case)
+    if 'encoders' in case:
+        return run_encoders_beside(ctx, case)
+    if 'beside' in case:
+        return run_beside(ctx, case)
     if 'prim' in case:
         run_prims(ctx)
     elif 'classes' in case:
@@ -298,6 +371,73 @@ def garbage_frames(rng, valid):
     out.append(('random', b'\x42\x00\x78\x01' + struct.pack('!I', len(rnd)) + rnd))
     out.append(('empty', b'\x42\x00\x78\x01' + struct.pack('!I', 0)))
     return [(k, f) for k, f in out if k != 'truncated-body']
+
+
+def run_beside(ctx, case):
+    """Responses composed while other sessions are being served: three real sessions (different users, each speaking its
+    own KMIP version, requests from the whole generator, some with batch item IDs, some refused) on threads of their own with
+    yields injected at executed lines of the package.  Every response is held against the envelope rules, and its header
+    must name the version of the request it answers."""
+    import random
+    import threading
+    from kv.monitors.yields import YieldInjector
+    rng = ctx.rng()
+    rig.install_clock(rig.VClock(step=0))
+    with rig.scratch_dir() as d:
+        srv = rig.Server(d + '/db.sqlite')
+        try:
+            objs = store.populate(srv, rng, n=8)
+            sessions = []
+            for u in rng.sample(['alice', 'bob', 'carol', 'dave'], 3):
+                v = rng.choice(rig.VERSIONS)
+                frames = []
+                for _ in range(rng.randrange(5, 12)):
+                    nops = rng.choice((1, 1, 2, 3))
+                    try:
+                        named = [G.random_op(rng, v, objs) for _ in range(nops)]
+                        frames.append(rig.encode_request(rig.build_request(v, [o for _, o in named], ids=[b'%s-%d' % (u.encode(), i) for i in range(nops)]
+                                                                           if nops > 1 or rng.random() < 0.3 else None), v))
+                    except Exception:
+                        ctx.count('request_not_encodable')
+                sessions.append((rig.make_cert((u,), 'client'), v, frames))
+            out = {}
+
+            def run(si):
+                cert, v, frames = sessions[si]
+                out[si] = rig.session_roundtrip(srv.engine, b''.join(frames), cert)
+            threads = [threading.Thread(target=run, args=(si,), daemon=True) for si in range(len(sessions))]
+            with YieldInjector(random.Random(rng.getrandbits(32)), rng.choice((0.02, 0.1, 0.25)), where='/kmip/', tool=5, name='kv-c02'):
+                for t in threads:
+                    t.start()
+                for t in threads:
+                    t.join(90)
+            if any(t.is_alive() for t in threads):
+                ctx.unsure('a session thread of a C02 beside-history did not finish within 90 s')
+                return
+            ctx.ev()
+            ctx.cell('beside', '+'.join('%d.%d' % s_[1] for s_ in sessions))
+            for si, (cert, v, frames) in enumerate(sessions):
+                sent, esc = out[si]
+                if esc is not None or len(sent) != len(frames):
+                    ctx.count('no_single_response')
+                    continue
+                for frame, resp in zip(frames, sent):
+                    ctx.count('responses_validated')
+                    ctx.count('responses_validated_beside_other_sessions')
+                    info, problems = T.check_response_envelope(resp)
+                    for rule, text in problems:
+                        ctx.violation('%s|beside' % rule, 'a response composed while other sessions were being served violates the envelope: %s' % text,
+                                      {'request': frame.hex()[:600], 'response': resp.hex()[:600]})
+                    try:
+                        rig.decode_request(frame)
+                        decodable = True
+                    except Exception:
+                        decodable = False
+                    if decodable and info is not None and 'version' in info and tuple(info['version']) != tuple(v):
+                        ctx.violation('header-version|beside', 'response header says KMIP %d.%d, the request was %d.%d (other sessions speak other '
+                                      'versions at the same moment)' % (tuple(info['version']) + tuple(v)), {'request': frame.hex()[:400]})
+        finally:
+            srv.close()
 
 
 def run_session(ctx, case):
